@@ -4,10 +4,10 @@ Declarative specification for property C03 (stratifying without adjustments does
 aggregate dynamics).  Mathlib-free.
 
 * `agg` : summing a vector indexed by the stratified compartments back over the new strata.
-* `copies` : the documented list of copies that replace a parent flow under an unadjusted
+* `copiesA` : the documented list of copiesA that replace a parent flow under an unadjusted
   stratification, written class by class from the docstrings of `flows.py`
   ("equally dividing entry population between all strata", "babies get born at age 0",
-  "conservation split", `AbsoluteFlow`'s equal share).
+  "conservation split", `AbsoluteFlow`'s equal shareA).
 * `rateLaw` : the documented per-flow rate law as a function of the flow and of its own weight.
 -/
 namespace Summer.Spec
@@ -80,12 +80,12 @@ def copy (f : Flow α) (s : Strat α) (srcS dstS : Bool) (extra : List (Adj α))
            adjs := f.adjs ++ extra }
 
 /-- `Multiply(1/n)` -/
-def share (n : Nat) : Adj α := .mul (.const ((1 : α) / (n : α)))
+def shareA (n : Nat) : Adj α := .mul (.const ((1 : α) / (n : α)))
 
 def isBirthKind : FlowKind → Bool
   | .crudeBirth => true | .replBirth => true | _ => false
 
-/-- The documented copies of a parent flow under an UNADJUSTED stratification `s` with `n` strata:
+/-- The documented copiesA of a parent flow under an UNADJUSTED stratification `s` with `n` strata:
 
 * entry flows (births, imports) into a stratified destination: one copy per stratum, each with the
   extra adjustment `Multiply(1/n)`; except births under an age stratification: a copy for stratum
@@ -96,7 +96,7 @@ def isBirthKind : FlowKind → Bool
   absolute flows are in addition shared equally (`Multiply(1/n)`, `n > 1`) unless the previous rule
   applied;
 * a flow none of whose ends is stratified is kept as it is. -/
-def copies (s : Strat α) (f : Flow α) : List (Flow α) :=
+def copiesA (s : Strat α) (f : Flow α) : List (Flow α) :=
   let n := s.strata.length
   let srcS := endStratified f.src s
   let dstS := endStratified f.dst s
@@ -104,7 +104,7 @@ def copies (s : Strat α) (f : Flow α) : List (Flow α) :=
     if !dstS then [f]
     else if isBirthKind f.kind && s.kind == .age then
       (s.strata.filter (fun st => st == "0")).map (copy f s false true [])
-    else s.strata.map (copy f s false true [share n])
+    else s.strata.map (copy f s false true [shareA n])
   else if isDeath f.kind then
     if !srcS then [f] else s.strata.map (copy f s true false [])
   else
@@ -112,8 +112,8 @@ def copies (s : Strat α) (f : Flow α) : List (Flow α) :=
     else
       let conservation := dstS && !srcS && !(s.kind == .strain)
       let extra : List (Adj α) :=
-        if conservation then [share n]
-        else if f.kind == .absolute && decide (1 < n) then [share n]
+        if conservation then [shareA n]
+        else if f.kind == .absolute && decide (1 < n) then [shareA n]
         else []
       s.strata.map (copy f s srcS dstS extra)
 
